@@ -3,7 +3,7 @@
 # checks listed below), records the verdicts in seeded/<id>/meta.json and rebuilds seeded/INDEX.md.
 # /repo is patched and reverted for each change (never committed).
 cd /verif
-declare -A EXTRA=( ["C04-2"]="C02" ["C04-3"]="C02" ["C04-4"]="C02 C01" ["C14-2"]="C15" ["C14-4"]="C15" ["C15-1"]="C14" ["C10-1"]="C11" ["C10-3"]="C12" ["C02-1"]="C18" ["C06-2"]="C09" ["C09-1"]="C06" ["C01-6"]="C02" ["C03-6"]="C02" ["C04-5"]="C02" ["C04-6"]="C02" ["C07-5"]="C09" ["C05-5"]="C07" ["C14-6"]="C15" ["C10-5"]="C12" ["C08-7"]="C02" ["C05-8"]="C18" ["C14-7"]="C15" ["C14-8"]="C15" ["C08-12"]="C02" ["C02-11"]="C08" ["C09-11"]="C06" ["C15-12"]="C14" )
+declare -A EXTRA=( ["C04-2"]="C02" ["C04-3"]="C02" ["C04-4"]="C02 C01" ["C14-2"]="C15" ["C14-4"]="C15" ["C15-1"]="C14" ["C10-1"]="C11" ["C10-3"]="C12" ["C02-1"]="C18" ["C06-2"]="C09" ["C09-1"]="C06" ["C01-6"]="C02" ["C03-6"]="C02" ["C04-5"]="C02" ["C04-6"]="C02" ["C07-5"]="C09" ["C05-5"]="C07" ["C14-6"]="C15" ["C10-5"]="C12" ["C08-7"]="C02" ["C05-8"]="C18" ["C14-7"]="C15" ["C14-8"]="C15" ["C08-12"]="C02" ["C02-11"]="C08" ["C09-11"]="C06" ["C15-12"]="C14" ["C07-11"]="C09" )
 mkdir -p /tmp/seedres
 for d in seeded/C*/; do
   id=$(basename $d); p=${id%-*}; n=${id#*-}
